@@ -174,9 +174,72 @@ def py_auto_h(m, eps):
     return h, (g ** h * rng_ == eps)
 
 
-def py_pbvi(m, bs, eps, H, aord):
+class E:
+    """x0 + x1 * e for an infinitesimal e > 0 (first order, exact): the arithmetic of a model whose rare
+    transitions have probability e.  Ordered lexicographically - what floating point does with e = 1e-9 as long
+    as the zeroth-order gaps are not themselves tiny (callers check that with `edges`)."""
+    __slots__ = ("x0", "x1")
+
+    def __init__(self, x0, x1=0):
+        self.x0, self.x1 = F(x0), F(x1)
+
+    @staticmethod
+    def of(x):
+        return x if isinstance(x, E) else E(x)
+
+    def __add__(self, o):
+        o = E.of(o)
+        return E(self.x0 + o.x0, self.x1 + o.x1)
+    __radd__ = __add__
+
+    def __neg__(self):
+        return E(-self.x0, -self.x1)
+
+    def __sub__(self, o):
+        return self + (-E.of(o))
+
+    def __rsub__(self, o):
+        return E.of(o) - self
+
+    def __mul__(self, o):
+        o = E.of(o)
+        return E(self.x0 * o.x0, self.x0 * o.x1 + self.x1 * o.x0)
+    __rmul__ = __mul__
+
+    def key(self):
+        return (self.x0, self.x1)
+
+    def __lt__(self, o):
+        return self.key() < E.of(o).key()
+
+    def __gt__(self, o):
+        return self.key() > E.of(o).key()
+
+    def __le__(self, o):
+        return self.key() <= E.of(o).key()
+
+    def __ge__(self, o):
+        return self.key() >= E.of(o).key()
+
+    def __eq__(self, o):
+        return self.key() == E.of(o).key()
+
+    def __hash__(self):
+        return hash(self.key())
+
+    def __abs__(self):
+        return -self if self.key() < (0, 0) else self
+
+
+def order0(x):
+    return x.x0 if isinstance(x, E) else x
+
+
+def py_pbvi(m, bs, eps, H, aord, edges=None, rare=False):
     """Independent re-implementation of the point-based backup loop in Fractions.
     bs: list of normalised Fraction beliefs in the code's order; aord: abstract actions in the code's order.
+    rare: carry the transitions of m["rare"] with an infinitesimal probability (class E) - they decide the argmax
+    wherever everything else is tied, exactly as the 1e-9 entries do in the real arrays.
     Returns (alphas, k, phase)."""
     N, K, NO = m["N"], m["K"], m["NO"]
     g = F(m["GN"], m["GD"])
@@ -184,6 +247,19 @@ def py_pbvi(m, bs, eps, H, aord):
     T = [[[F(m["P"][s][a][n], m["PD"]) if s in na else F(0) for n in range(N)] for a in range(K)] for s in range(N)]
     Ob = [[[F(m["O"][a][n][o], m["OD"]) for o in range(NO)] for n in range(N)] for a in range(K)]
     R = [[rsa(m, s, a) if s in na else F(0) for a in range(K)] for s in range(N)]
+    if rare and m.get("rare"):
+        cnt = {}
+        for s_, a_, _n in m["rare"]:
+            cnt[(s_, a_)] = cnt.get((s_, a_), 0) + 1
+        for (s_, a_), r_ in cnt.items():
+            if s_ in na:
+                T[s_][a_] = [E(x, -x * r_) for x in T[s_][a_]]
+        for s_, a_, n_ in m["rare"]:
+            if s_ in na:
+                T[s_][a_][n_] = T[s_][a_][n_] + E(0, 1)
+        for (s_, a_) in cnt:
+            if s_ in na:
+                R[s_][a_] = sum(T[s_][a_][n] * m["R"][s_][a_][n] for n in range(N))
     nb = len(bs)
     bv = [[F(0)] * N for _ in range(nb)]
     if H <= 0:
@@ -205,6 +281,8 @@ def py_pbvi(m, bs, eps, H, aord):
                     best, bestv = vec, v
             new.append(best)
         delta = max(abs(sum(bs[b][s] * (bv[b][s] - new[b][s]) for s in range(N))) for b in range(nb))
+        if edges is not None and abs(order0(delta) - eps) < F(1, 10 ** 6):
+            edges.append(delta)          # a stop test that a perturbation of 1e-9 could turn
         if delta < eps:
             return bv, k, "stopped"
         bv = new
@@ -314,8 +392,51 @@ def make_near(rng):
     return m
 
 
+def make_late(rng):
+    """Late-belief family (revealing observations, dyadic): a cycle s0 -> s1 -> s2 -> s0 from which s2 slips into s3
+    with probability 1e-9 (rare transitions, see make_rare).  Action `a` is the routine one; in s2 action `b` is better
+    by less than the threshold; in s3 `b` pays half of what `c` pays for ever.  With a small expansion budget the
+    vertex of s3 enters the belief set last, and two successive solutions agree on the older beliefs although they
+    differ at it: the expansion / convergence loop has to look at the EXPANDED set to go on."""
+    sc = rng.choice([8, 16])
+    perm = [0, 1, 2, 3]
+    rng.shuffle(perm)
+    s0, s1, s2, s3 = perm
+    acts = [0, 1, 2]
+    rng.shuffle(acts)
+    a, b, c = acts
+    N, K, PD, OD = 4, 3, 2, 2
+    P = [[[0] * N for _ in range(K)] for _ in range(N)]
+    R = [[[0] * N for _ in range(K)] for _ in range(N)]
+    for x in range(K):
+        P[s0][x][s1] = P[s1][x][s2] = P[s2][x][s0] = P[s3][x][s3] = PD
+    for st in (s0, s1, s2):
+        R[st][a] = [sc] * N
+    R[s2][b] = [sc + sc // 8] * N
+    R[s3][b] = [5 * sc] * N
+    R[s3][c] = [10 * sc] * N
+    p0 = [0] * N
+    p0[s0] = 2
+    O = [[[OD if o == n else 0 for o in range(N)] for n in range(N)] for _ in range(K)]
+    obs = rng.choice(["identity", "permuted"])
+    if obs == "permuted":
+        for x in range(K):
+            pm = list(range(N))
+            rng.shuffle(pm)
+            O[x] = [[row[pm[o]] for o in range(N)] for row in O[x]]
+    return {"N": N, "K": K, "PD": PD, "GN": 1, "GD": 2, "ID": 2, "abs": [0] * N, "avail": [[1] * K for _ in range(N)],
+            "P": P, "R": R, "p0": p0, "NO": N, "OD": OD, "O": O, "ghost": 0, "obs_kind": obs, "rfam": "mixed",
+            "rare": [[s2, x, s3] for x in range(K)], "late": sc}
+
+
 def make_case(rng, k, tier):
     while True:
+        if k % 16 == 13:
+            m = make_late(rng)
+            rep = dict(labels=rng.choice(LABELS), alabels=rng.choice(LABELS), olabels=rng.choice(LABELS),
+                       explicit_list=True, dist="dict", odist=rng.choice(DISTS), outside=None)
+            mp, ls = prune(m, pb.listed_states(m, True))
+            break
         if k % 16 == 9:
             m = make_near(rng)
             rep = dict(labels=rng.choice(LABELS), alabels=rng.choice(LABELS), olabels=rng.choice(LABELS),
@@ -452,6 +573,10 @@ def make_case(rng, k, tier):
             dict(min_belief_expansions=2, max_belief_expansions=6, value_convergence_epsilon=[1, 100], horizon=-1),
             dict(min_belief_expansions=5, max_belief_expansions=6, value_convergence_epsilon=[1, 8], horizon=2)]
     pick = [menu[k % len(menu)], menu[(k * 3 + 1) % len(menu)]]
+    if m.get("late"):       # the smallest budget; threshold above the advantage of `b` in s2, below everything else
+        e = [3 * m["late"], 16]
+        pick = [dict(min_belief_expansions=0, max_belief_expansions=10, value_convergence_epsilon=e, horizon=-1),
+                dict(min_belief_expansions=0, max_belief_expansions=12, value_convergence_epsilon=e, horizon=rng.choice([6, 8]))]
     if m.get("near"):       # budgets under which the farthest-successor rule closes the belief set (4 members)
         pick = [dict(min_belief_expansions=5, max_belief_expansions=8, value_convergence_epsilon=[1, 100], horizon=20),
                 dict(min_belief_expansions=10, max_belief_expansions=50, value_convergence_epsilon=[1, 128], horizon=-1)]
@@ -891,6 +1016,15 @@ class Real:
         pre = min(mn + 1, mx)
         outer = int(res.expansion_iterations) - mn + 1
         j_used = pre + outer - 1
+        # the outer loop of the planner by the independent exact re-implementation (where floating point is exact):
+        # it says after how many expansions the alpha vectors have to be computed - a planner that stops its
+        # expansion / convergence loop elsewhere is judged on the belief set the loop prescribes
+        j_ref = self.reference_outer_loop(cfg, eps, H)
+        if j_ref is not None:
+            self.ctx.count("outer_loops_followed_by_the_exact_reference" + ("" if j_ref == j_used else "[real loop differs]"))
+            if j_ref != j_used:
+                rec["outer_loop"] = {"expected_expansions_before_the_last_solve": j_ref, "real": j_used}
+            j_used = j_ref
         rec["known"] = False
         hor = None if H < 0 else H
         # (a) the expansion sequence by the independent exact farthest-successor rule; None when floating
@@ -966,6 +1100,58 @@ class Real:
             e = {"from": frm, "to": to, "exact": ex}
             if e not in self.expands and len(to) <= 12:
                 self.expands.append(e)
+
+    def reference_outer_loop(self, cfg, eps, H):
+        """Number of expansions before the solve whose alpha vectors PointBasedValueIteration._solve returns:
+        pre = min(min+1, max) expansions, then up to `max` rounds of (solve; expand; stop when two successive
+        solutions differ by less than eps on the EXPANDED set).  Exact (Fractions); None unless the model reveals the
+        state (the only place where it is needed), all numbers are dyadic and small enough for doubles to be exact."""
+        mp = self.mp
+        if not all(sum(1 for n in range(mp["N"]) if mp["O"][a][n][o] > 0) <= 1 for a in range(mp["K"]) for o in range(mp["NO"])):
+            return None
+        if mp["GD"] & (mp["GD"] - 1):
+            return None
+        # rare-transition family: the reference works without the 1e-9 entries; every comparison with the
+        # threshold must then be decided by a margin of 1e-6 (else no prediction)
+        edges = [] if mp.get("rare") else None
+        h = H if H >= 0 else py_auto_h(mp, eps)[0]
+        S = mp["PD"] * mp["OD"] * mp["GD"]
+        rb = max([abs(x) for sa in mp["R"] for row in sa for x in row] + [1])
+        if h > 16 or S ** max(h, 1) * rb * 4096 >= 2 ** 52:
+            return None
+        mn, mx = cfg["min_belief_expansions"], cfg["max_belief_expansions"]
+        pre = min(mn + 1, mx)
+        if pre + mx > 12:
+            mx = 12 - pre           # longer loops are not followed
+        seq = self.spec_expansions(pre + mx)
+        if seq is None or max(len(B) for B in seq) > 8:
+            return None
+        key = ("outer", mn, cfg["max_belief_expansions"], eps, H)
+        cache = self.__dict__.setdefault("_outer", {})
+        if key in cache:
+            return cache[key]
+        aord = list(self.apos)
+        last, i, stopped = None, 0, False
+        for i in range(mx):
+            alpha, _k, _ph = py_pbvi(mp, [normal(w) for w in seq[pre + i]], eps, h, aord, edges=edges, rare=True)
+            if edges:
+                cache[key] = None
+                return None
+            nxt = [normal(w) for w in seq[pre + i + 1]]
+            if last is not None:
+                diff = max(abs(max(sum(b[s_] * a_[s_] for s_ in range(mp["N"])) for a_ in last)
+                               - max(sum(b[s_] * a_[s_] for s_ in range(mp["N"])) for a_ in alpha)) for b in nxt)
+                diff = order0(diff)
+                if edges is not None and abs(diff - eps) < F(1, 10 ** 6):
+                    cache[key] = None
+                    return None
+                if diff < eps:
+                    stopped = True
+                    break
+            last = alpha
+        # a loop cut short here (not the planner's own limit) is not a prediction
+        cache[key] = (pre + i) if (stopped or mx == cfg["max_belief_expansions"]) else None
+        return cache[key]
 
     def spec_expansions(self, n):
         """[B_0, ..., B_n] by the exact farthest-successor rule (rows in the order np.unique gives them), or None."""
@@ -1111,6 +1297,11 @@ class Real:
         rec["expands"] = self.expands
         rec["greedy"] = self.greedy
         rec["rare"] = [[s_ + 1, a_ + 1, n_ + 1] for s_, a_, n_ in mp["rare"]]
+        if sum(1 for x in mp["abs"] if not x) > 3:
+            # beyond the closed-form solver of the spec library: TLC certifies these values instead of computing them
+            V, _Q, bl, _ = leaf_tables(mp)
+            rec["vhint"] = [[x.numerator, x.denominator] for x in V]
+            rec["blhint"] = [[[x.numerator, x.denominator] for x in row] for row in bl]
         return rec
 
 
@@ -1123,6 +1314,8 @@ def shape_of(m):
         tags.append("rare-transition")
     if m.get("near"):
         tags.append("reachable-belief-within-1e-3-of-another")
+    if m.get("late"):
+        tags.append("belief-entering-late")
     return ",".join(tags)
 
 
@@ -1267,6 +1460,9 @@ class Judge:
         if "error" in rec:
             self.crash(rec)
             return
+        if rec.get("outer_loop"):
+            self.ctx.drift("OuterLoop", {"case": self.idx, "what": "the expansion / convergence loop of the planner ended after "
+                                         "another number of expansions than the loop prescribes", **rec["outer_loop"]})
         if rec.get("deviates"):
             self.ctx.drift("Expand", {"case": self.idx, "what": "the belief set of the planner is not the one the "
                                       "farthest-successor rule prescribes", **rec["deviates"]})
@@ -1280,7 +1476,11 @@ class Judge:
             # which backups produced the vectors is unknown without hook H2: only the k = 0 slack is sound
             k, jr, same = 0, None, None
             self.ctx.skip("planner run whose belief set / backup count could not be re-recorded (slack of 0 backups used)")
-            if rec.get("recon"):
+            if rec.get("recon", "").startswith("a belief of the set is not an exact"):
+                # only reachable where floating point is inexact (otherwise the prescribed sequence decides): a
+                # limitation of the harness's matching of float rows to exact successors, not a mismatch of the code
+                self.ctx.skip("belief set whose float rows could not be matched to exact successor beliefs (inexact model)")
+            elif rec.get("recon"):
                 self.ctx.drift("Reconstruct", {"case": self.idx, "why": rec["recon"]})
         qobs = (self.real.qmdp or {}).get("obs")
         allok = True
